@@ -1246,7 +1246,7 @@ func TestC12(t *testing.T) {
 	h.RunProp(t, permGrid, 0)
 	h.RunProp(t, redefGrid, 0)
 	h.RunProp(t, permSample, 0)
-	h.RunProp(t, classes, h.N(3000, 60000))
+	h.RunProp(t, classes, h.N(3000, 45000))
 
 	if os.Getenv("C12_ONLY_RAPID") != "" { // development aid: histogram of the generator alone
 		return
